@@ -1011,6 +1011,24 @@ class Env:
             self.assumptions.append(("%s!=0" % name, v != 0))
         return SC(v)
 
+    def ivar(self, name, lo=None, hi=None):
+        """a free integer (z3 Int) - returns the z3 term in sym mode, a Python int in num mode"""
+        self.decl[name] = Decl("int", lo=lo, hi=hi)
+        if self.mode == "num":
+            if name in self.values:
+                return int(round(float(self.values[name])))
+            v = self.rng.randint(0 if lo is None else lo, (lo or 0) + 8 if hi is None else hi)
+            self.values[name] = v
+            return v
+        v = self.vars.get(name)
+        if v is None:
+            v = self.vars[name] = z3.Int(name)
+        if lo is not None:
+            self.assumptions.append(("%s>=%s" % (name, lo), v >= lo))
+        if hi is not None:
+            self.assumptions.append(("%s<=%s" % (name, hi), v <= hi))
+        return v
+
     def pos(self, name):
         self.decl[name] = Decl("pos")
         if self.mode == "num":
@@ -1569,6 +1587,8 @@ def _vars(e):
             if t.decl().kind() == z3.Z3_OP_UNINTERPRETED:
                 out.add(t.decl().name())
         else:
+            if z3.is_app(t) and t.decl().kind() == z3.Z3_OP_UNINTERPRETED:
+                out.add("fn:" + t.decl().name())     # uninterpreted functions link obligations to their table axioms
             stack.extend(t.children())
     _VARS_CACHE[key] = (e, frozenset(out))
     return _VARS_CACHE[key][1]
@@ -1667,7 +1687,7 @@ def atom_valuation(env, values):
     """{z3 var name: float} for all vars of env given the declared-input values."""
     val = {}
     for name, d in env.decl.items():
-        if d.kind in ("real", "pos"):
+        if d.kind in ("real", "pos", "int"):
             val[name] = float(values[name])
         elif d.kind == "cplx":
             val[name + ".re"] = float(values[name + ".re"])
